@@ -109,14 +109,56 @@ def check_table(rep, prog):
     nl0 = set(I.loops)
     r = I.method(tab, "get_entry", [pte])
     loops = [L for lid, L in I.loops.items() if lid not in nl0]
-    ok = len(loops) == 1 and loops[0].iter == ents and isinstance(r, Ite) and isinstance(r.c, Op) and r.c.op == "exists" \
-        and isinstance(r.a, Op) and r.a.op == "loopret" and r.b == NONE
-    if ok:
-        L = loops[0]
-        m = [x for x in walk(r.c) if isinstance(x, Op) and (x.op.startswith("call:" + IL + "PTETableEntry.matches") or x.op == "m:matches")]
-        ok = len(m) == 1 and m[0].args[-1] == pte and r.a.args[1] == m[0].args[0] and not L.breaks
+    # which entry a PTE gets: the summary of the search is run on sample tables (overlapping literal / wild-card patterns,
+    # reported-error variants) - whether matches() is called per entry or its test is inlined into the scan
+    ok = None
+    bad_s = None
+    try:
+        import collections
+        import re as _re
+        Ent = collections.namedtuple("Ent", ["pte_pattern", "pte_re", "tag"])
+        mk = lambda pats: [Ent(p_, _re.compile(p_.replace("*", "."), _re.IGNORECASE), i_) for i_, p_ in enumerate(pats)]
+
+        def ref_m(pattern, v):
+            rx = _re.compile(pattern.replace("*", "."), _re.IGNORECASE)
+            rp = (v & 0xF0000000) == 0xE0000000 and (v & 0x40000) == 0x40000
+            return bool(rx.fullmatch("%08X" % v)) or (rp and bool(rx.fullmatch("%08X" % (v & ~0x40000))))
+        I3 = Interpreter(prog, hooks={"opaque": {IL + "PTETableEntry.matches"}})
+        t3 = Instance(prog.cls(IL + "PTETable"), ())
+        ENT = Sym("ENTRIES")
+        t3.attrs["entries"] = ENT
+        t3r = I3.alloc(t3)
+        r3 = I3.method(t3r, "get_entry", [pte])
+        tables = [[], ["01040000"], ["E*082690", "E0082690", "********"], ["EA0C0403", "EA08****", "EA08840*", "ea088403"],
+                  ["**FF00**", "00FF0001", "E00C0000"], ["0104000*", "01040000", "0104****", "E0040000", "E0000000"]]
+        ptes = [0x01040000, 0xE0082690, 0xE00C2690, 0xEA088403, 0xEA0C8403, 0xEA0C0403, 0x00FF0001, 0x12FF0034, 0xE0040000, 0xE0000000, 0xFFFFFFFF, 0]
+        nsm = 0
+        for pats in tables:
+            for v in ptes:
+                env = pelx.with_heap(I3, {ENT: mk(pats), pte: v, Op("len", ENT): len(pats), Op("truthy", ENT): bool(pats)})
+                env["__ops__"] = {"m:matches": lambda e_, v_: ref_m(e_.pte_pattern, v_),
+                                  "call:" + IL + "PTETableEntry.matches": lambda e_, v_: ref_m(e_.pte_pattern, v_)}
+                got = evaluate(r3, env)
+                hits = [e_ for e_ in mk(pats) if ref_m(e_.pte_pattern, v)]
+                want = hits[0].tag if hits else None
+                got_tag = got.tag if hasattr(got, "tag") else got
+                nsm += 1
+                if got_tag != want and bad_s is None:
+                    bad_s = "PTE %08X in the table %s finds entry %r, documented: %r (the first matching entry in table order)" % (v, pats, got_tag, want)
+        rep.count("table look-up samples evaluated", nsm)
+        ok = bad_s is None
+    except CannotEval:
+        ok = None
+    if ok is None:
+        ok = len(loops) == 1 and loops[0].iter == ents and isinstance(r, Ite) and isinstance(r.c, Op) and r.c.op == "exists" \
+            and isinstance(r.a, Op) and r.a.op == "loopret" and r.b == NONE
+        if ok:
+            L = loops[0]
+            m = [x for x in walk(r.c) if isinstance(x, Op) and (x.op.startswith("call:" + IL + "PTETableEntry.matches") or x.op == "m:matches")]
+            ok = len(m) == 1 and m[0].args[-1] == pte and r.a.args[1] == m[0].args[0] and not L.breaks
     rep.check(ok, rule, "get_entry returns the first entry, in list order, whose matches(pte) is true, else None", "PTETable.get_entry",
-              "for entry in self.entries: if entry.matches(pte): return entry", "table search is not a first-match scan over the entries in order: %r" % (r,))
+              "for entry in self.entries: if entry.matches(pte): return entry", "table search is not a first-match scan over the entries in order: %s" % (
+                  bad_s or repr(r)[:200],))
     def pre_existing(e):
         tgt = e.data[0]
         o = I.heap.get(tgt.oid) if isinstance(tgt, Ref) else None
